@@ -17,13 +17,14 @@
 (*             y's own structure (attribute access is cached by key)       *)
 (*   c_na / c_ret_ok / c_hit   the real Reader._parse_statement cache after *)
 (*             parsing x: parsing y returns what a fresh reader returns    *)
-(*             for y (c_ret_ok), without re-parsing (c_hit)                *)
+(*             for y (c_ret_ok); whether it was re-parsed (c_hit) is a      *)
+(*             matter of speed, not of identity: measured, never judged    *)
 (*   g_na / g_ok   item access x[name] for every output name, then y[name] *)
 (*             yields y's own features                                     *)
 (*   u_na / u_ok   x still survives a pickle round trip after all that     *)
 (* Requirement: with same == (a = b), i.e. structural identity,            *)
 (*   eq = eqr = dhit = pk_b = same,  ssize = 1 iff same,  same => heq,     *)
-(*   pk_self,  a_ok,  c_ret_ok /\ (same => c_hit),  g_ok,  u_ok,           *)
+(*   pk_self,  a_ok,  c_ret_ok,  g_ok,  u_ok,                              *)
 (*   nothing raises.                                                       *)
 (* Unequal structures with colliding hashes (heq without eq) are allowed.  *)
 (***************************************************************************)
@@ -42,7 +43,7 @@ Clauses == <<
     [n |-> "set", ok |-> O.ssize = (IF Same THEN 1 ELSE 2)],
     [n |-> "pickle", ok |-> ~O.x_pk /\ O.pk_self /\ (O.pk_b = Same)],
     [n |-> "attribute_access", ok |-> O.a_na \/ O.a_ok],
-    [n |-> "parser_cache", ok |-> O.c_na \/ (O.c_ret_ok /\ (Same => O.c_hit))],
+    [n |-> "parser_cache", ok |-> O.c_na \/ O.c_ret_ok],
     [n |-> "item_access", ok |-> O.g_na \/ O.g_ok],
     [n |-> "pickle_after_use", ok |-> O.u_na \/ O.u_ok] >>
 \* failing clauses as a bit mask (clause i = bit 2^(i-1)): printed values must stay on one line
